@@ -566,6 +566,12 @@ func execCase(c hx.Case, pub *published) {
 				if oa.kind != ob.kind && len(oa.m)+len(ob.m) > 0 {
 					tags["mixed-relation"] = true
 				}
+				if oa.kind != ob.kind && oa.kind != 'u' && oa.kind != 's' && ob.kind != 'u' && ob.kind != 's' {
+					tags["relation-of-sorted-sets-with-different-comparators"] = true
+					if want && len(oa.m) >= 2 {
+						tags["relation-true-for-sorted-sets-with-different-comparators"] = true
+					}
+				}
 				observe(a)
 				observe(b)
 			case "clone", "cloneempty":
@@ -1448,6 +1454,50 @@ func aliasCase(r *hx.Rand) hx.Case {
 	return hx.Case{Header: fmt.Sprintf("comp=reg sh=%d regs=%s", uint32(r.U64()), string(kinds)), Ops: ops}
 }
 
+// cmpMixCase: the same (or nearly the same) members in sets of every kind, in particular sorted sets with different
+// comparators (ascending/descending, normalised or not), then every pair in Equal/IsSubset/IsSuperset and the
+// set algebra with operands of other kinds.
+func cmpMixCase(r *hx.Rand) hx.Case {
+	kinds := []byte(kindLetters)
+	for i := len(kinds) - 1; i > 0; i-- {
+		j := r.Intn(i + 1)
+		kinds[i], kinds[j] = kinds[j], kinds[i]
+	}
+	kinds = append(kinds, kinds[0]) // a result register
+	n := len(kinds) - 1
+	var ops []string
+	emit := func(format string, a ...any) { ops = append(ops, fmt.Sprintf(format, a...)) }
+	var base []int
+	for k := r.Range(2, 7); k > 0; k-- {
+		base = append(base, r.Intn(20)-5)
+	}
+	for i := 0; i < n; i++ {
+		vs := shuffled(r, base)
+		switch r.Intn(4) {
+		case 0:
+			vs = append(vs, r.Intn(20)-5) // one more
+		case 1:
+			vs = vs[1:] // one less
+		}
+		emit("add %d%s", i, join(vs))
+	}
+	for i := 0; i < n; i++ {
+		for j := 0; j < n; j++ {
+			if r.Chance(1, 2) {
+				emit("%s %d %d", hx.Pick(r, []string{"equal", "subset", "superset"}), i, j)
+			}
+		}
+	}
+	for k := r.Range(6, 12); k > 0; k-- {
+		a, b, c := r.Intn(n), r.Intn(n), r.Intn(n)
+		emit("%s %d %d %d %d", hx.Pick(r, []string{"union", "inter", "diff"}), n, a, b, c)
+		emit("equal %d %d", n, a)
+		emit("subset %d %d", n, b)
+		emit("superset %d %d", n, c)
+	}
+	return hx.Case{Header: fmt.Sprintf("comp=reg sh=%d regs=%s", uint32(r.U64()), string(kinds)), Ops: ops}
+}
+
 // enumCase: n elements of kind k, then powerset / partitions
 func enumCase(r *hx.Rand, kind byte, n int, what string) hx.Case {
 	perm := []int{}
@@ -1558,6 +1608,11 @@ func Main(run *hx.Run) {
 	ra := run.R.Fork("alias")
 	for k := run.Scale(150); k > 0; k-- {
 		do(aliasCase(ra))
+	}
+	// the same members under different comparators and kinds
+	rc := run.R.Fork("cmpmix")
+	for k := run.Scale(40); k > 0; k-- {
+		do(cmpMixCase(rc))
 	}
 	if run.Thorough() {
 		rx := run.R.Fork("exhaustive")
